@@ -29,13 +29,16 @@ import (
 //
 // Protocol (one JSON object per line on stdin / stdout):
 //   {"cmd":"new","secret":hex}   -> {"ok":true}
-//   {"cmd":"dgram","hex":hex}    -> {"hcalls":n,"effects":n,"resps":[hex...],"dead":bool,"stats":{...}}
+//   {"cmd":"dgram","hex":hex[,"prior":[hex...]]} -> {"hcalls":n,"effects":n,"resps":[hex...],"dead":bool,"stats":{...}}
 //   {"cmd":"close"}              -> {"ok":true}
 
 type childCmd struct {
 	Cmd    string `json:"cmd"`
 	Secret string `json:"secret,omitempty"`
 	Hex    string `json:"hex,omitempty"`
+	// datagrams sent from socket A immediately before the datagram under test, with NO sentinel in
+	// between (the listener sees consecutive datagrams from one source address and port)
+	Prior []string `json:"prior,omitempty"`
 }
 
 type childReply struct {
@@ -45,6 +48,9 @@ type childReply struct {
 	Effects int            `json:"effects"`
 	Resps   []string       `json:"resps"`
 	Dead    bool           `json:"dead"`
+	// priors that got no answer within priorWait (a sentinel round was run instead to make sure the
+	// listener had finished with them)
+	PriorUnanswered int `json:"prior_unanswered,omitempty"`
 	Stats   map[string]int `json:"stats,omitempty"`
 }
 
@@ -210,36 +216,84 @@ func drain(c *net.UDPConn) [][]byte {
 
 const sentinelWait = 3 * time.Second
 
-// deliver sends one datagram to the real listener and observes what the listener did with it.
-func (h *host) deliver(b []byte) childReply {
-	h.mu.Lock()
-	h.calls, h.effects = nil, 0
-	h.mu.Unlock()
-	drain(h.a)
-	drain(h.b)
-	var rep childReply
-	rep.Resps = []string{}
-	if _, err := h.a.WriteToUDP(b, h.addr); err != nil {
-		rep.Err = "send: " + err.Error()
-		return rep
-	}
-	// sentinel: a correctly signed CoA-Request for a session that does not exist (no effects),
-	// from the second socket; any answer on that socket means the listener has finished with b.
-	alive := false
+const priorWait = 2 * time.Second
+
+// sentinelRound sends correctly signed sentinels from socket B until one is answered (at most two).
+func (h *host) sentinelRound() (alive bool, err error) {
 	prefix := fmt.Sprintf("sentinel-%d-", os.Getpid())
 	for try := 0; try < 2 && !alive; try++ {
 		h.nonce++
 		sid := prefix + strconv.Itoa(h.nonce)
 		s := packet(43, byte(h.nonce), attr(44, []byte(sid)), h.secret)
 		if _, err := h.b.WriteToUDP(s, h.addr); err != nil {
-			rep.Err = "send sentinel: " + err.Error()
-			return rep
+			return false, err
 		}
 		h.b.SetReadDeadline(time.Now().Add(sentinelWait))
 		buf := make([]byte, 4096)
 		if _, _, err := h.b.ReadFromUDP(buf); err == nil {
 			alive = true
 		}
+	}
+	return alive, nil
+}
+
+// sendPriors delivers the datagrams that precede the one under test, from the same socket. Each is
+// a request the listener answers; its answer on socket A is the barrier "the listener has finished
+// with it" (the answer is the last thing the listener does for a datagram). No sentinel is sent in
+// between, so the listener sees consecutive datagrams from one source. A prior that is not answered
+// within priorWait falls back to a sentinel round (sound, but the pair is then no longer adjacent).
+func (h *host) sendPriors(priors [][]byte, rep *childReply) {
+	for _, pb := range priors {
+		drain(h.a)
+		if _, err := h.a.WriteToUDP(pb, h.addr); err != nil {
+			rep.Err = "send prior: " + err.Error()
+			return
+		}
+		h.a.SetReadDeadline(time.Now().Add(priorWait))
+		buf := make([]byte, 70000)
+		if _, _, err := h.a.ReadFromUDP(buf); err != nil {
+			rep.PriorUnanswered++
+			if _, err := h.sentinelRound(); err != nil {
+				rep.Err = "send sentinel: " + err.Error()
+				return
+			}
+		}
+	}
+}
+
+// deliver sends one datagram to the real listener and observes what the listener did with it.
+func (h *host) deliver(b []byte, priors ...[]byte) childReply {
+	var rep childReply
+	rep.Resps = []string{}
+	if len(priors) > 0 {
+		h.sendPriors(priors, &rep)
+		if rep.Err != "" {
+			return rep
+		}
+		// the handler's return precedes the answer; give a deferred tail of it a moment
+		runtime.Gosched()
+	}
+	prefix := fmt.Sprintf("sentinel-%d-", os.Getpid())
+	h.mu.Lock()
+	for _, c := range h.calls { // sentinels of a fallback round in sendPriors
+		if strings.HasPrefix(c.session, prefix) {
+			h.sentinelCalls++
+		}
+	}
+	h.calls, h.effects = nil, 0
+	h.mu.Unlock()
+	drain(h.a)
+	drain(h.b)
+	if _, err := h.a.WriteToUDP(b, h.addr); err != nil {
+		rep.Err = "send: " + err.Error()
+		return rep
+	}
+	// sentinel: a correctly signed CoA-Request for a session that does not exist (no effects),
+	// from the second socket; any answer on that socket means the listener has finished with b.
+	alive, serr := h.sentinelRound()
+	if serr != nil {
+		rep.Err = "send sentinel: " + serr.Error()
+		return rep
 	}
 	rep.Dead = !alive
 	resps := drain(h.a)
@@ -325,7 +379,12 @@ func childMain() {
 				continue
 			}
 			b, _ := hex.DecodeString(c.Hex)
-			r := h.deliver(b)
+			var priors [][]byte
+			for _, ph := range c.Prior {
+				pb, _ := hex.DecodeString(ph)
+				priors = append(priors, pb)
+			}
+			r := h.deliver(b, priors...)
 			if r.Dead && r.Err == "" {
 				// give later datagrams a working listener again
 				sec := h.secret
